@@ -19,7 +19,7 @@
    changes, all other elements and their order stay"). *)
 From Coq Require Import List ZArith Bool Arith Lia.
 From SC Require Import Base.Res Base.PyList Inst.Heap Inst.ClassTable Inst.Model Inst.Canon Inst.Abs
-  Inst.SpecHelpers Inst.ElemProofs Inst.RefineProofs Inst.CopyProofs Inst.ElemRefineDep Inst.ElemRefine Inst.ElemRefine2 Inst.ElemRefine3 Inst.ElemRefine4 Inst.ElemRefine5 Inst.ElemRefine6 Inst.ElemRefine7 Inst.ElemRefine8 Inst.ElemRefine9 Inst.ElemRefine10 Inst.ElemRefine11 Inst.ElemRefine12 Inst.ElemRefine13 Inst.ElemRefine14 Inst.ElemRefine15 Inst.ElemRefineGuard.
+  Inst.SpecHelpers Inst.ElemProofs Inst.RefineProofs Inst.CopyProofs Inst.ElemRefineDep Inst.ElemRefine Inst.ElemRefine2 Inst.ElemRefine3 Inst.ElemRefine4 Inst.ElemRefine5 Inst.ElemRefine6 Inst.ElemRefine7 Inst.ElemRefine8 Inst.ElemRefine9 Inst.ElemRefine10 Inst.ElemRefine11 Inst.ElemRefine12 Inst.ElemRefine13 Inst.ElemRefine14 Inst.ElemRefine15 Inst.ElemRefine16 Inst.ElemRefineGuard.
 Import ListNotations.
 Open Scope nat_scope.
 
@@ -1093,6 +1093,76 @@ Example C06_history_example :
              (3, ASet [AInt 0; AInt 2])].
 Proof. vm_compute. repeat split. Qed.
 
+(* HISTORIES OF COPY-ON-WRITE CALLS (Inst/ElemRefine16.v): `a.with_x(5).without_x(0).with_m('k', 3)`.
+   The instance a successful copy-on-write call returns is again a flat instance of the same
+   class, not being initialised, whose attribute holds a container of scalars of the same family
+   (copy_shape), so copy_guard holds for the RESULT in the state after the call
+   (copy_guard_kept): the copy-on-write theorems chain along every history of such calls. *)
+Theorem C06_copy_calls_keep_guard_partial : forall ct s l a,
+  (copy_guard ct s l a KList = true ->
+     (forall idx v ins, plain_items ct s l a = true -> vscalar v = true ->
+        (idx = VMissing \/ exists i, idx = VInt i) ->
+        copy_guard_kept ct s l a KList (HWithItem a) (mkh [v] false true idx ins None None [] None)) /\
+     (forall voi bi, nonref voi = true ->
+        copy_guard_kept ct s l a KList (HWithoutItem a) (mkh [voi] false true VMissing false bi None [] None)) /\
+     (forall voi fo bi, proper_elems s l a = true -> fail_at s = None ->
+        nonref voi = true -> is_missing voi = false -> fo_ok fo -> by_value_ok ct s l a voi bi = true ->
+        copy_guard_kept ct s l a KList (HTransformItem a) (mkh [voi] false true VMissing false bi None [] fo)) /\
+     (forall voi v bi, proper_elems s l a = true -> plain_items ct s l a = true ->
+        nonref voi = true -> is_missing voi = false -> nonref v = true ->
+        vscalar v || by_value_ok ct s l a voi bi = true ->
+        copy_guard_kept ct s l a KList (HUpdateItem a) (mkh [voi; v] false true VMissing false bi None [] None))) /\
+  (copy_guard ct s l a KDict = true ->
+     (forall key v, plain_items ct s l a = true -> nonref key = true -> vscalar v = true ->
+        copy_guard_kept ct s l a KDict (HWithItem a) (mkh [key; v] false true VMissing false None None [] None)) /\
+     (forall key, nonref key = true ->
+        copy_guard_kept ct s l a KDict (HWithoutItem a) (mkh [key] false true VMissing false None None [] None)) /\
+     (forall key fo bi, dict_vals_proper s l a = true -> fail_at s = None -> nonref key = true -> fo_ok fo ->
+        copy_guard_kept ct s l a KDict (HTransformItem a) (mkh [key] false true VMissing false bi None [] fo)) /\
+     (forall key v, dict_vals_proper s l a = true -> plain_items ct s l a = true ->
+        nonref key = true -> nonref v = true ->
+        copy_guard_kept ct s l a KDict (HUpdateItem a) (mkh [key; v] false true VMissing false None None [] None))) /\
+  (copy_guard ct s l a KSet = true ->
+     (forall v, plain_items ct s l a = true -> vscalar v = true ->
+        copy_guard_kept ct s l a KSet (HWithItem a) (mkh [v] false true VMissing false None None [] None)) /\
+     (forall voi, nonref voi = true ->
+        copy_guard_kept ct s l a KSet (HWithoutItem a) (mkh [voi] false true VMissing false None None [] None)) /\
+     (forall voi fo bi, fail_at s = None -> vscalar voi = true -> fo_ok fo ->
+        copy_guard_kept ct s l a KSet (HTransformItem a) (mkh [voi] false true VMissing false bi None [] fo)) /\
+     (forall voi v, plain_items ct s l a = true -> vscalar voi = true -> nonref v = true ->
+        copy_guard_kept ct s l a KSet (HUpdateItem a) (mkh [voi; v] false true VMissing false None None [] None))).
+Proof.
+  intros ct s l a. split; [|split]; intro G; (split; [|split; [|split]]).
+  - intros idx v ins P Hv Hi. now apply with_item_list_copy_keeps_guard.
+  - intros voi bi Hv. now apply without_item_list_copy_keeps_guard.
+  - intros voi fo bi Pe Hfa Hv Hm Hfo Hbv. now apply transform_item_list_copy_keeps_guard.
+  - intros voi v bi Pe P Hv Hm Hnv Hbv. now apply update_item_list_copy_keeps_guard.
+  - intros key v P Hk Hv. now apply with_item_dict_copy_keeps_guard.
+  - intros key Hk. now apply without_item_dict_copy_keeps_guard.
+  - intros key fo bi Vp Hfa Hk Hfo. now apply transform_item_dict_copy_keeps_guard.
+  - intros key v Vp P Hk Hnv. now apply update_item_dict_copy_keeps_guard.
+  - intros v P Hv. now apply with_item_set_copy_keeps_guard.
+  - intros voi Hv. now apply without_item_set_copy_keeps_guard.
+  - intros voi fo bi Hfa Hv Hfo. now apply transform_item_set_copy_keeps_guard.
+  - intros voi v P Hv Hnv. now apply update_item_set_copy_keeps_guard.
+Qed.
+
+(* a chain of three copy-on-write calls on the frozen example class,
+   a.with_x(5).without_x(0).with_m('a8', 3): every intermediate result is within copy_guard, the
+   final abstraction is the expected one and the original receiver's cells are as at the start *)
+Example C06_copy_history_example :
+  let r1 := run_helper ex_ct_frozen 0 (HWithItem 1) (mkh [VInt 5] false true VMissing false None None [] None) ex_state in
+  let r2 := run_helper ex_ct_frozen 5 (HWithoutItem 1) (mkh [VInt 0] false true VMissing false None None [] None) (snd r1) in
+  let r3 := run_helper ex_ct_frozen 10 (HWithItem 2) (mkh [VStr 8; VInt 3] false true VMissing false None None [] None) (snd r2) in
+  fst r1 = Ok (VRef 5) /\ copy_guard ex_ct_frozen (snd r1) 5 1 KList = true /\
+  fst r2 = Ok (VRef 10) /\ copy_guard ex_ct_frozen (snd r2) 10 2 KDict = true /\
+  fst r3 = Ok (VRef 15) /\ copy_guard ex_ct_frozen (snd r3) 15 3 KSet = true /\
+  absv (heap (snd r3)) (VRef 15) =
+    AInst 0 [(1, AList [AInt 1; AInt 1; AInt 0; AInt 5]); (2, ADict [(AStr 0, AInt 0); (AStr 7, AInt 1); (AStr 8, AInt 3)]);
+             (3, ASet [AInt 0; AInt 2])] /\
+  firstn 4 (heap (snd r3)) = heap ex_state.
+Proof. vm_compute. repeat split. Qed.
+
 (* WHY by_value_ok IS NEEDED — a finding.  xs : List[int] holding [1, 0, 1, 0];
    transform_<item>(True, lambda x: x): True has the element type, so the target is addressed
    BY VALUE; True == 1 finds position 0.  "Replace by transformed value" (spec_change_item)
@@ -1176,6 +1246,8 @@ Print Assumptions C06_with_item_preparer_nested_refine_guarded_partial.
 Print Assumptions C06_nested_guard_examples.
 Print Assumptions C06_inplace_calls_keep_guard_partial.
 Print Assumptions C06_history_example.
+Print Assumptions C06_copy_calls_keep_guard_partial.
+Print Assumptions C06_copy_history_example.
 Print Assumptions C06_by_value_transforms_argument_refuted.
 Print Assumptions C06_by_value_transforms_argument_set_refuted.
 Print Assumptions C06_examples.
